@@ -1,9 +1,10 @@
+import warnings
 from collections.abc import Iterable
 from contextlib import suppress
 from dataclasses import dataclass, field, replace
 from typing import Any, get_args, get_origin
 
-from xsdata.exceptions import ParserError
+from xsdata.exceptions import ConverterWarning, ParserError
 from xsdata.formats.converter import converter
 from xsdata.formats.dataclass.context import XmlContext
 from xsdata.formats.dataclass.models.elements import XmlMeta, XmlVar
@@ -204,9 +205,7 @@ class DictDecoder:
         Returns:
             An instance of one of the class types representing the parsed content.
         """
-        obj = None
         keys = set(data.keys())
-        max_score = -1.0
         config = replace(self.config, fail_on_converter_warnings=True)
         decoder = DictDecoder(config=config, context=self.context)
         is_model = self.context.class_type.is_model
@@ -222,19 +221,16 @@ class DictDecoder:
                 )
             }
 
-        for clazz in classes:
-            if not is_model(clazz):
-                continue
+        obj, clazz = decoder.find_best_dataclass(data, keys, classes)
+        if obj is None and not self.config.fail_on_converter_warnings:
+            # None of the classes converts all the values: rank the classes with
+            # the values as they are and bind the winner again, to warn only once.
+            with warnings.catch_warnings():
+                warnings.simplefilter("ignore", ConverterWarning)
+                obj, clazz = self.find_best_dataclass(data, keys, classes)
 
-            if self.context.local_names_match(keys, clazz):
-                candidate = None
-                with suppress(Exception):
-                    candidate = decoder.bind_dataclass(data, clazz)
-
-                score = self.context.class_type.score_object(candidate)
-                if score > max_score:
-                    max_score = score
-                    obj = candidate
+            if clazz is not None:
+                obj = self.bind_dataclass(data, clazz)
 
         if obj:
             return obj
@@ -243,6 +239,43 @@ class DictDecoder:
             f"Failed to bind object with properties({list(data.keys())}) "
             f"to any of the {[cls.__qualname__ for cls in classes]}"
         )
+
+    def find_best_dataclass(
+        self,
+        data: dict,
+        keys: set[str],
+        classes: Iterable[type[T]],
+    ) -> tuple[T | None, type[T] | None]:
+        """Bind the input data to the classes that declare the keys and score them.
+
+        Args:
+            data: The derived element dictionary
+            keys: The keys of the data the class has to declare
+            classes: The target class types to try
+
+        Returns:
+            The instance with the best score and its class type,
+            or a tuple of nones if the data can't be bound to any class.
+        """
+        obj = None
+        best = None
+        max_score = -1.0
+        for clazz in classes:
+            if not self.context.class_type.is_model(clazz):
+                continue
+
+            if self.context.local_names_match(keys, clazz):
+                candidate = None
+                with suppress(Exception):
+                    candidate = self.bind_dataclass(data, clazz)
+
+                score = self.context.class_type.score_object(candidate)
+                if score > max_score:
+                    max_score = score
+                    obj = candidate
+                    best = clazz
+
+        return obj, best
 
     def bind_value(
         self,
